@@ -40,7 +40,7 @@ def main():
     kf = os.path.join(tlc.VERIF, "known_findings.d", "C20.json")
     if os.path.exists(kf):
         listed = set(f["key"] for f in json.load(open(kf))["findings"])
-    state = os.path.join(tlc.WORK, "c20findings_state.json")
+    state = os.environ.get("C20_STATE", os.path.join(tlc.WORK, "c20findings_state.json"))
     collector = json.load(open(state)) if os.path.exists(state) and "--resume" in sys.argv else {}
     for seed in [int(x) for x in sys.argv[2:] if x != "--resume"]:
         ctx = framework.Ctx("C20", tier, seed)
